@@ -251,35 +251,45 @@ def typeNameOf (env : Env) (c : Comb) : UInt32 :=
   | some t => t.name
   | none => 0
 
-def convComb (env : Env) (c : Comb) : Except GErr Combinator := do
+/-- the `right` side: result type of a function, or the declared type applied to its own template arguments -/
+def rightOf (env : Env) (mc : Scope) (typeName : UInt32) (c : Comb) : Except GErr TypeExpr :=
+  if c.isFunction then
+    let tmp := childrenOf env mc c.funcDecl
+    match mc.find (fun e => e.name == c.funcDecl.name) with
+    | some ctx => .ok (TypeExpr.tvar (u32 ctx.index) 0)
+    | none => .ok (TypeExpr.expr typeName 0 (u32 tmp.length) tmp)
+  else
+    match ctorChildren c.targs c.typeArgs.length 0 with
+    | .error e => .error e
+    | .ok ch => .ok (TypeExpr.expr typeName 0 (u32 c.typeArgs.length) ch)
+
+def convComb (env : Env) (c : Comb) : Except GErr Combinator :=
   let typeName := typeNameOf env c
-  let mc0 := targScope c.targs 0 Scope.empty
-  let (fargs, mc) ← argsOfFields env mc0 c.targs.length c.fields
-  let args := targArgs c.targs 0 ++ fargs
-  let left := Left.args (u32 args.length) args
-  let right ←
-    if c.isFunction then
-      let tmp := childrenOf env mc c.funcDecl
-      match mc.find (fun e => e.name == c.funcDecl.name) with
-      | some ctx => pure (TypeExpr.tvar (u32 ctx.index) 0)
-      | none => pure (TypeExpr.expr typeName 0 (u32 tmp.length) tmp)
-    else do
-      let ch ← ctorChildren c.targs c.typeArgs.length 0
-      pure (TypeExpr.expr typeName 0 (u32 c.typeArgs.length) ch)
-  pure (.v4 c.tag (strBytes c.name) typeName left right (modifierFlag c.modifiers))
+  match argsOfFields env (targScope c.targs 0 Scope.empty) c.targs.length c.fields with
+  | .error e => .error e
+  | .ok (fargs, mc) =>
+    let args := targArgs c.targs 0 ++ fargs
+    match rightOf env mc typeName c with
+    | .error e => .error e
+    | .ok right =>
+      .ok (.v4 c.tag (strBytes c.name) typeName (Left.args (u32 args.length) args) right (modifierFlag c.modifiers))
 
 /-- the second loop: (constructors, functions) in declaration order -/
 def convAll (env : Env) : List Comb → Except GErr (List Combinator × List Combinator)
-  | [] => pure ([], [])
+  | [] => .ok ([], [])
   | c :: cs =>
     match builtinComb c.name with
-    | some b => do
-      let (k, f) ← convAll env cs
-      pure (b :: k, f)
-    | none => do
-      let x ← convComb env c
-      let (k, f) ← convAll env cs
-      if c.isFunction then pure (k, x :: f) else pure (x :: k, f)
+    | some b =>
+      (match convAll env cs with
+       | .error e => .error e
+       | .ok (k, f) => .ok (b :: k, f))
+    | none =>
+      match convComb env c with
+      | .error e => .error e
+      | .ok x =>
+        match convAll env cs with
+        | .error e => .error e
+        | .ok (k, f) => if c.isFunction then .ok (k, x :: f) else .ok (x :: k, f)
 
 /-! ### sorting (byte-wise string order, as Go compares strings) -/
 
@@ -302,16 +312,20 @@ def hasDup : List UInt32 → Bool
   | x :: xs => xs.contains x || hasDup xs
 
 /-- `GenerateTLO(version)` with `now` standing for `time.Now().Unix()` -/
-def generateTLO (version : UInt32) (now : UInt32) (cs : Schema) : Except GErr SchemaV4 := do
+def sortedTypes (tm : TypeMap) : List TlsType :=
+  (sortBy (fun a b => bytesLt (strBytes a.1) (strBytes b.1)) tm).map (·.2)
+
+def generateTLO (version : UInt32) (now : UInt32) (cs : Schema) : Except GErr SchemaV4 :=
   let tm := buildTypes cs
-  let env : Env := ⟨cs, tm⟩
-  let (constructors, functions) ← convAll env cs
-  let types := (sortBy (fun a b => bytesLt (strBytes a.1) (strBytes b.1)) tm).map (·.2)
-  let functions := sortBy (fun a b => bytesLt a.id b.id) functions
-  if hasDup (types.map (·.name)) then throw .collision
-  pure { version := version, date := if version = 0 then now else version,
-         typesNum := u32 types.length, types := types,
-         constructorNum := u32 constructors.length, constructors := constructors,
-         functionsNum := u32 functions.length, functions := functions }
+  match convAll ⟨cs, tm⟩ cs with
+  | .error e => .error e
+  | .ok (constructors, functions) =>
+    let types := sortedTypes tm
+    let functions := sortBy (fun a b => bytesLt a.id b.id) functions
+    if hasDup (types.map (·.name)) then .error .collision
+    else .ok { version := version, date := if version = 0 then now else version,
+               typesNum := u32 types.length, types := types,
+               constructorNum := u32 constructors.length, constructors := constructors,
+               functionsNum := u32 functions.length, functions := functions }
 
 end TLVerif.Tlomig
